@@ -24,4 +24,21 @@ PROPS = {
     ),
 }
 
+PROPS["C04"] = dict(
+    contracts=["stdlib", "util_retry"],
+    trusted_base=COMMON_TRUSTED + ["backoff arithmetic over mathematical reals; 2**n as an uninterpreted positive function"],
+    assumptions=["BaseHTTPResponse.get_redirect_location is a deterministic function of the response (assumed contract; verified separately under C05)",
+                 "HTTPHeaderDict.get returns a str or the default (assumed contract)",
+                 "time.sleep / time.time / email.utils date parsing: assumed contracts (contracts/stdlib.py)"],
+    not_decided=["closed-loop attempt bound of HTTPConnectionPool.urlopen (recursion contract) - next build step"],
+    level_text="Deductive proof over the real bodies of Retry.__init__/new/increment/is_exhausted/is_retry/from_int/_is_*_error/_is_method_retryable/"
+               "get_backoff_time/_sleep_backoff/sleep_for_retry/get_retry_after/parse_retry_after/sleep and util.reraise: increment never mutates the "
+               "caller's Retry (frame), decrements total and exactly the classified category, re-raises the same error object when retries/category is "
+               "False or a read error hits a non-idempotent method, raises MaxRetryError(reason = last cause) exactly when a counter goes negative; "
+               "is_exhausted <=> some counter < 0; every back-off sleep lies in (0, max(0, backoff_max)].",
+    level_note="Assumed contracts: stdlib time/email/re, HTTPHeaderDict.get, get_redirect_location determinism. Floats as reals. "
+               "Known finding D7 (Retry-After honoured for statuses outside 413/429/503) is reported as KNOWN-FINDING. "
+               "The urlopen recursion (attempts on the wire <= 1 + budgets) is not yet under contract.",
+)
+
 NOT_APPLICABLE_REASON = {}
